@@ -37,7 +37,10 @@ LOCAL INSTANCE SequencesExt
 CONSTANTS PercentExact, NewlineByWrites, MoveUpAfterFirst, FinishDrawsNoMax,
           ClearCountsRows                \* SectionOutput.clear(n) as in Sections.tla (TRUE = repaired)
 
-VARIABLES cfg,       \* [mode, bw, mingap, maxgap, fmt, w, pre, max0]   fixed per behaviour
+VARIABLES cfg,       \* [mode, bw, mingap, maxgap, freq, fmt, chars, w, pre, max0]; mode, gaps, freq, w, pre, max0 are fixed per
+                     \* behaviour; fmt / bw / chars follow set_format / set_bar_width / the character setters
+                     \* chars = [bar, empty, prog]: bar = "" is the default ("=" with a maximum, else the empty-bar
+                     \* character); prog is a sequence of 0 or 1 cells
           bar,       \* A: the ProgressBar object
           sec,       \* A: the SectionOutput the bar writes to in section mode  [content, lines]
           term,      \* environment
@@ -72,7 +75,7 @@ FrameShape == AllFrames(LAMBDA f : f.ok)
 BarWidthOK == AllFrames(LAMBDA f : f.ok => Len(f.bar) = cfg.bw)
 StepOK == AllFrames(LAMBDA f : f.ok => /\ f.cur = last.progress /\ f.cur >= 0
                                        /\ f.hasmax => f.max = last.maxsteps
-                                       /\ last.maxsteps > 0 => f.cur <= last.maxsteps)
+                                       /\ last.maxsteps # 0 => f.cur <= last.maxsteps)   \* 0 = no maximum
 PercentOK == AllFrames(LAMBDA f : (f.ok /\ f.haspct /\ last.maxsteps > 0) => f.pct = (100 * f.cur) \div last.maxsteps)
 ThrottleOK == (ByAdvance /\ Frames # <<>> /\ last.progress # last.maxsteps /\ last.gap >= 0) => last.gap >= cfg.mingap
 \* "reaching": the call changed the step or the maximum and left step = maximum
@@ -113,8 +116,9 @@ FillOf(b) == IF b.max > 0 THEN (b.step * cfg.bw) \div b.max
              ELSE IF FreqNone THEN ((TMin(75, cfg.bw) * b.writes) % (15 * cfg.bw)) \div 15   \* min(5, w/15)*writes % w
              ELSE b.step % cfg.bw
 BarCells(b) == LET fill == FillOf(b) IN
-               Rep(IF b.max > 0 THEN "=" ELSE "-", fill)
-               \o (IF fill < cfg.bw THEN <<">">> \o Rep("-", cfg.bw - fill - 1) ELSE <<>>)
+               Rep(IF cfg.chars.bar # "" THEN cfg.chars.bar ELSE IF b.max > 0 THEN "=" ELSE cfg.chars.empty, fill)
+               \o (IF fill < cfg.bw THEN cfg.chars.prog \o Rep(cfg.chars.empty, cfg.bw - fill - Len(cfg.chars.prog))
+                   ELSE <<>>)
 Cur(b) == RJust(Digits(b.step), b.stepw)
 Render(b) ==
   CASE cfg.fmt \in Named /\ b.nomax -> << <<" ">> \o Cur(b) \o <<" ", "[">> \o BarCells(b) \o <<"]">> >>
@@ -188,7 +192,7 @@ SetProgress(b, s, n) ==
   LET grow == b.max > 0 /\ n > b.max
       max1 == IF grow THEN n ELSE b.max
       n1   == IF ~grow /\ n < 0 THEN 0 ELSE n
-      Period(x) == IF FreqNone THEN (IF max1 > 0 THEN (10 * x) \div max1 ELSE x) ELSE x
+      Period(x) == IF FreqNone THEN (IF max1 > 0 THEN (10 * x) \div max1 ELSE x) ELSE x \div cfg.freq  \* set_redraw_frequency
       b1   == [b EXCEPT !.max = max1, !.step = n1]
   IN IF n1 = max1 THEN Display(b1, s)                                   \* draw regardless of other limits
      ELSE IF b.since < cfg.mingap THEN Nothing(b1, s)                   \* throttling
@@ -229,11 +233,11 @@ Event(op, arg, dt, gap, r, b) ==
    progress |-> b.step, maxsteps |-> b.max, msg |-> b.msg, pprog |-> last.progress, pmax |-> last.maxsteps]
 
 InitWith(c) ==                                               \* c.max0: the maximum given to the constructor
-  /\ cfg = c /\ bar = NewBar(c.max0, c.maxgap) /\ sec = [content |-> <<>>, lines |-> 0]
+  /\ cfg = c /\ bar = NewBar(TMax(0, c.max0), c.maxgap) /\ sec = [content |-> <<>>, lines |-> 0]
   /\ term = ApplyOps(TermNew(c.w), LinesOps(c.pre))
   /\ shown = NoFrame /\ sinceAdv = -1 /\ plog = <<>>
   /\ last = [op |-> "new", arg |-> c.max0, dt |-> 0, gap |-> -1, frames |-> <<>>, ops |-> <<>>, exc |-> "",
-             progress |-> 0, maxsteps |-> c.max0, msg |-> <<"m">>, pprog |-> 0, pmax |-> c.max0]
+             progress |-> 0, maxsteps |-> TMax(0, c.max0), msg |-> <<"m">>, pprog |-> 0, pmax |-> TMax(0, c.max0)]
 
 \* after dt ticks the program calls op(arg)
 Call(dt, op, arg) ==
@@ -248,10 +252,21 @@ Call(dt, op, arg) ==
        /\ last' = Event(op, arg, dt, gap, r, r.b)
        /\ UNCHANGED cfg
 
+\* set_format (the format is worked out again at the next display / clear), set_bar_width, character setters:
+\* no output; only single-line formats are exchanged for one another
+DefaultChars == [bar |-> "", empty |-> "-", prog |-> <<">">>]
+Reconfigure(what, fmt, bw, chars) ==
+  /\ cfg' = [cfg EXCEPT !.fmt = fmt, !.bw = bw, !.chars = chars]
+  /\ bar' = IF what = "fmt" THEN [bar EXCEPT !.fmtset = FALSE] ELSE bar
+  /\ last' = [last EXCEPT !.op = what, !.arg = 0, !.dt = 0, !.gap = -1, !.frames = <<>>, !.ops = <<>>,
+                          !.pprog = last.progress, !.pmax = last.maxsteps]
+  /\ UNCHANGED <<sec, term, shown, sinceAdv, plog>>
+
 SetMessage(m) == /\ bar' = [bar EXCEPT !.msg = m]
                  /\ last' = [last EXCEPT !.op = "msg", !.arg = Len(m), !.dt = 0, !.gap = -1, !.frames = <<>>,
                                          !.ops = <<>>, !.msg = m, !.pprog = last.progress, !.pmax = last.maxsteps]
                  /\ UNCHANGED <<cfg, sec, term, shown, sinceAdv, plog>>
+\* (events carry the configuration in force after the call: see MC_ProgressBar!Obs / the recorded "conf" field)
 
 TermOK == WellFormed(term)
 =============================================================================
